@@ -34,6 +34,10 @@ PowWild   == W({"null", "fin", "nonfin"})
 AnyVal    == W({"any"})
 Str(cs)   == [t |-> "str", v |-> cs]
 Dt(d, ms) == [t |-> "dt", d |-> d, ms |-> ms]
+\* sub-millisecond residue (microseconds 1..999) of a datetime that was offset by a fractional number of milliseconds;
+\* absent (= 0) for every datetime the library itself creates
+UsOf(v) == IF "us" \in DOMAIN v THEN v.us ELSE 0
+Dt3(d, ms, us) == IF us = 0 THEN Dt(d, ms) ELSE [t |-> "dt", d |-> d, ms |-> ms, us |-> us]
 ARef(i)   == [t |-> "array", r |-> i]
 ORef(i)   == [t |-> "object", r |-> i]
 Regex     == [t |-> "regex"]
@@ -238,7 +242,7 @@ Compare(a, b, heap) ==
     ELSE CASE a.t = "str"    -> CmpSeqCP(a.v, b.v)
            [] a.t = "bool"   -> CmpInt(IF a.v THEN 1 ELSE 0, IF b.v THEN 1 ELSE 0)
            [] a.t = "num"    -> CmpNum(a, b)
-           [] a.t = "dt"     -> IF a.d # b.d THEN CmpInt(a.d, b.d) ELSE CmpInt(a.ms, b.ms)
+           [] a.t = "dt"     -> IF a.d # b.d THEN CmpInt(a.d, b.d) ELSE IF a.ms # b.ms THEN CmpInt(a.ms, b.ms) ELSE CmpInt(UsOf(a), UsOf(b))
            [] a.t = "array"  -> CmpElems(Elems(a, heap), Elems(b, heap), heap)
            [] a.t = "object" -> CmpPairs(SortPairs(Elems(a, heap)), SortPairs(Elems(b, heap)), heap)
            [] OTHER          -> 0
@@ -286,7 +290,8 @@ MatchNum(e, o) ==
     ELSE IF e.f = "d" THEN o.f = "d" /\ o.s = e.s /\ o.ds = e.ds /\ o.e = e.e
     ELSE o.f = "x" /\ o.v = e.v
 Matches(e, o) ==
-    IF e.t = "wild" THEN
+    IF o.t = "huge" THEN TRUE          \* an observation elided for its size (alpha: > 20 000 elements / 200 000 characters)
+    ELSE IF e.t = "wild" THEN
         \/ "any" \in e.cls /\ o.t # "alien"
         \/ "null" \in e.cls /\ o.t = "null"
         \/ "fin" \in e.cls /\ o.t = "num" /\ o.f # "x"
@@ -295,7 +300,7 @@ Matches(e, o) ==
     ELSE CASE e.t = "num"    -> MatchNum(e, o)
            [] e.t = "bool"   -> e.v = o.v
            [] e.t = "str"    -> e.v = o.v
-           [] e.t = "dt"     -> e.d = o.d /\ e.ms = o.ms
+           [] e.t = "dt"     -> e.d = o.d /\ e.ms = o.ms /\ UsOf(e) = UsOf(o)
            [] e.t = "array"  -> Len(e.v) = Len(o.v) /\ \A i \in 1..Len(e.v) : Matches(e.v[i], o.v[i])
            [] e.t = "object" -> /\ Len(e.v) = Len(o.v)
                                 /\ \A i \in 1..Len(e.v) : \E j \in 1..Len(o.v) :
